@@ -16,6 +16,9 @@ def parseOp (nk : Nat) (s : String) : Option Sop :=
     match nats (String.ofList rest) with
     | some [k, s] => if k < nk && s ≤ 1 then some (.read k) else none
     | _ => none
+  | 'V' :: rest => match (String.ofList rest).toNat? with   -- a reader that makes Squid revalidate (304 + header update): still a reader
+    | some k => if k < nk then some (.read k) else none
+    | none => none
   | 'E' :: rest => match (String.ofList rest).toNat? with
     | some c => if c ≤ 60 then some (.fill c) else none
     | none => none
